@@ -4,7 +4,14 @@ import json
 props=[json.loads(l)['id'] for l in open('/verif/properties.jsonl')]
 TECH="bounded symbolic execution of go/ssa (own engine) + SMT (cvc5): assertion decided for all values within stated bounds; counterexamples replayed on the real build"
 NOTE="Trusted: go/ssa + go/packages (x/tools v0.30.0), cvc5 1.0.3, the engine's SSA interpreter and its stubs for std / go/types / os (each listed with its contract in the evidence file). Bounds and what lies outside them are in the evidence (coverage.bounds / outside_bounds)."
+G="G.seq: every generated method/accessor/reset of every corpus mock (10 interfaces × flag combinations, emitted by moq built from the current tree) executed from SSA from an arbitrary receiver state with arbitrary arguments — one inductive step covers call/read/reset histories of any length; "
 claimed={
+ "C03":(G+"exactly one Call event on this method's own function field, same argument terms in order (variadic tail the same slice), results and panics passed through, no goroutine/recover","§4 C03"),
+ "C04":(G+"len'=len+1, earlier records unchanged (skolem index), new record = arguments field by field, stored before the delegation, frame condition, snapshot invariant preserved by every operation incl. resets, element writes never inside a returned slice","§4 C04"),
+ "C05":(G+"lock discipline on every path: each access to a record list under that method's lock (write lock for writes), element writes under exactly one write lock; schedule-variable encodings S.* still to be added","§4 C05"),
+ "C06":(G+"lock set empty at the Call event, locks never nested, every lock released on normal and panicking paths","§4 C06"),
+ "C07":(G+"nil function field: identifying panic before any effect (no -stub) / recorded, nothing invoked, zero value of every result type incl. generic and imported types (-stub)","§4 C07"),
+ "C08":(G+"reset methods exist iff -with-resets (method sets of the generated SSA package); ResetMCalls leaves exactly M's list empty, ResetCalls every list; flag plumbing solver-checked in H.run/H.mock","§4 C08"),
  "C13":("H.exported: the real Exported closure (fetched from templateFuncs after executing template.init from SSA) equals an independent reference rule for every ASCII name up to the bound","§4 C13"),
  "C15":("-rm half: H.run shows for all flag values and all fault combinations that os.Remove(-out) is the first environment action and a non-not-exist error aborts before loading; the left-in-place fixed-point half is not claimed yet","§4 C15"),
  "C17":("H.run/H.main/H.mock: run(), main() and Mocker.Mock executed from SSA with every environment call allowed to fail; event trace checked against the all-or-nothing rules; counterexamples replayed on the real CLI with real faults","§4 C17"),
